@@ -12,8 +12,8 @@ for d in sorted(glob.glob('/verif/seeded/*')):
     for k, v in cr.items():
         if v.get('rc') == 1 and v.get('signatures'):
             sigs.append(v['signatures'][0])
-    note = m.get('initially_missed') or m.get('note') or ''
-    note = 'initially missed: ' + note.split(':',1)[-1].strip()[:140] if m.get('initially_missed') else note[:140]
+    note = m.get('not_caught') or m.get('initially_missed') or m.get('note') or ''
+    note = note[:170] if m.get('not_caught') else ('initially missed: ' + note.split(':',1)[-1].strip()[:140] if m.get('initially_missed') else note[:140])
     needs = (m.get('needs_to_manifest') or '')
     if isinstance(needs, list): needs = '; '.join(map(str, needs))
     print(f"| {name} | {prop} | {str(m.get('title',''))[:110]} | {str(needs)[:160].replace('|','/')} | `{(sigs or ['-'])[0][:90]}` | {note.replace('|','/')} |")
